@@ -405,6 +405,7 @@ fn run(tier: Tier, seed: u64) -> i32 {
         coverage: json!({
             "evaluations": stats.executions,
             "distinct_nontrivial": stats.distinct.len(),
+            "run_digest": format!("{:016x}", stats.distinct.iter().fold(0u64, |a, h| a ^ vcore::mix(*h))),
             "rule": "evaluation = one execution of the real server main loop + Cache + analysis threads on one seeded protocol-conforming history (<= 25 steps, <= 3 documents, texts from repository grammars, seeded mutants and half-typed fragments; positions on word boundaries, anywhere, past the line end, inside surrogate pairs) under one shuttle schedule (round-robin, seeded random, seeded PCT depth 2/3). Non-trivial = every execution performs at least one analysis; distinct = different (history, recorded schedule = sequence of task ids chosen at every scheduling point).",
             "samples": samples,
             "histories": stats.histories,
